@@ -200,7 +200,7 @@ def case(ctx, rng, idx, state):
 if __name__ == "__main__":
     harness.main(
         PROP, "fault_enumeration", case, setup_fn=setup,
-        tiers=dict(quick=dict(cases=48, shards=8, time=240), thorough=dict(cases=640, shards=16, time=1500)),
+        tiers=dict(quick=dict(cases=48, shards=8, time=900), thorough=dict(cases=640, shards=16, time=3000)),
         rule="generic 2-3-WF systems; grids with 2-12 K-points (all completion permutations enumerated when <=4 (quick) / <=5 (thorough) K-points, "
              "each with 2 patterns of additional completions; random schedules otherwise), 1-4 'CPUs' (batch size of the collection loop), progress "
              "step 1-60 %, 0-2 refinement iterations; paths of 5-21 points in batches of 1-7 under random schedules; distinct by (workload, completion "
